@@ -33,6 +33,14 @@ def run(ck: Checker):
     check_thread_traceback(ck, 'C12-6')
     ck.rule('C12-7', 'pipe ownership: the write end of the result pipe lives only in a mapping created by SpawnProcess.__init__ (never in the caller\'s kwargs dict), so that a killed child is seen as EOF (ORIGIN)')
     check_pipe_ownership(ck, 'C12-7')
+    ck.rule('C12-8', 'timeouts of join / result / exception / wait / as_completed reach the standard-library call as given (0 = poll is legal): re-bound only under `is None`, never replaced through truthiness (GUARD)', minimum=6)
+    from .common import MPINIT, check_timeout_passthrough
+
+    fs = [m for m in ck.repo.cls(CONTEXT, 'SpawnProcess').methods() if m.name in ('join', 'result', 'exception')]
+    fs += [m for m in ck.repo.cls(THREADING, 'Thread').methods() if m.name in ('join', 'result', 'exception')]
+    fs += [f for f in ck.repo.module(THREADING).functions.values() if f.parent is None and f.name in ('wait', 'as_completed')]
+    fs += [f for f in ck.repo.module(MPINIT).functions.values() if f.parent is None and f.name in ('wait', 'as_completed')]
+    check_timeout_passthrough(ck, 'C12-8', fs)
     check_process_run(ck, 'C12-2')
     check_collector(ck, 'C12-3')
     check_accessors(ck, 'C12-4')
